@@ -67,13 +67,18 @@ def run_spec(ctx, rep, spec, model, only=None):
     if only is None:
         ctx.rng.shuffle(pts)
     for n, (lv, bid, c, pt) in enumerate(pts):
-        fsel = [0, list(names)[-1], [0, nf - 1], list(range(nf))][n % 4]
+        nl = list(names)
+        forms = [0, nl[-1], [0, nf - 1], list(range(nf)), nl[::-1], [nf - 1, 0], [-1, -2], -1, [0, 0, nf - 1]]
+        if nf >= 3:
+            forms += [[2, 0, 1], [nl[1], nl[0], nl[2]], [-1, -2, -3]]
+        fsel = forms[n % len(forms)]
         case = {"spec": spec, "point": pt, "level": lv, "box": bid, "cell": c, "fsel": fsel}
         rep.case({"s": spec, "p": pt, "f": fsel}, nontrivial=("origin" in feats or "aniso" in feats or len(spec["levels"]) >= 2))
         rep.count(f"level:{lv}"); rep.count("multi" if isinstance(fsel, list) else "single")
+        if isinstance(fsel, list) and idx != sorted(set(idx)): rep.count("multi-out-of-file-order")
         lo = spec["levels"][lv][bid][0]
         loc = tuple(c[d] - lo[d] for d in range(3))
-        idx = [names[fsel]] if isinstance(fsel, str) else ([fsel] if isinstance(fsel, int) else fsel)
+        idx = [(names[f] if isinstance(f, str) else f % nf) for f in (fsel if isinstance(fsel, list) else [fsel])]
         want = [float(truth[(lv, bid)][loc + (k,)]) for k in idx]
         try:
             with alarm(60), quiet(), pools.controlled():
